@@ -541,7 +541,7 @@ func (p *Parser) parseBuffer(buf []byte, last bool) error {
 		}
 	}
 	if last {
-		if len(p.mode) == 256 { // valid finishing maps are one byte longer
+		if 0 < len(p.starts) || len(p.mode) == 256 { // valid finishing maps are one byte longer
 			return p.newError(off, "incomplete JSON")
 		}
 		if p.mode[256] == 'n' {
